@@ -445,6 +445,38 @@ def deserialize (doc : PyVal) : Except Err ImgState := do
   let (s, _) ← loadVariants ver images vs ({ version := ver, compose := comp, cells := [] }, 0)
   .ok { s with version := .str currentVersion }
 
+/-- `Images.deserialize(doc)` on an object that is already in use: the header version and the compose section are
+replaced, the images of the document are ADDED to the ones present (`self.images` is not cleared), each through
+`add` under the document's version; `n0` = first fresh object identity.  (Only the successful outcome is modelled:
+after an exception the real object is left partially updated.) -/
+def deserializeInto (s0 : ImgState) (n0 : Nat) (doc : PyVal) : Except Err ImgState := do
+  let ver ← headerDeserialize doc
+  let payload ← item doc (L "payload")
+  let comp ← Compose.deserialize ver payload
+  let images ← item payload (L "images")
+  let vs ← iter images
+  let (s, _) ← loadVariants ver images vs ({ version := ver, compose := comp, cells := s0.cells }, n0)
+  .ok { s with version := .str currentVersion }
+
+/-- an operation of a history that may cross the version gate -/
+inductive HOp where
+  | add (op : AddOp)                       -- `images.add(variant, arch, image)`
+  | dumps                                  -- `images.dumps()`: sets the header to the current version
+  | setVersion (v : PyVal)                 -- `images.header.version = v`
+  | loads (doc : PyVal) (n0 : Nat)         -- `images.loads(text)` into the same object
+deriving Repr
+
+/-- one step of such a history: the object afterwards and whether the call raised (after a failed `loads` the
+state is not modelled: it is returned unchanged and histories end there) -/
+def hstep (s : ImgState) : HOp → ImgState × Except Err Unit
+  | .add op => add s op.variant op.arch op.id op.img
+  | .dumps => ((dumps s).1, match (dumps s).2 with | .ok _ => .ok () | .error e => .error e)
+  | .setVersion v => ({ s with version := v }, .ok ())
+  | .loads doc n0 =>
+    match deserializeInto s n0 doc with
+    | .ok s' => (s', .ok ())
+    | .error e => (s, .error e)
+
 /-- `Images.loads` on the parsed text (`json.load` is outside the model); the final `validate()` has no rules to
 run for `Images` (checked against the generated inventory in `Properties/C02.lean`) -/
 def loads (doc : PyVal) : Except Err ImgState := do
